@@ -38,9 +38,7 @@ void real_free(void * p) { }
 int g_hk[HIST]; void * g_hv[HIST];
 static void build_tree(void) {
   int i;
-  for (i = 0; i < myth_tls_tree_pre_alloc_sz; i++) T.pre_alloc_buf[i] = nondet_char();
-  T.root = (myth_tls_tree_node_t *)&VAL[3];       /* stale root of the previous owner of the descriptor */
-  T.pre_alloc_p = T.pre_alloc_buf + 7;
+  __CPROVER_havoc_object(&T);          /* a recycled descriptor: stale root, stale bump pointer, arbitrary pool bytes */
   myth_tls_tree_init(&T);
   for (i = 0; i < HIST; i++) {
     g_hk[i] = nondet_int(); g_hv[i] = nondet_bool() ? (void *)&VAL[1] : 0;
@@ -89,9 +87,7 @@ void h_set(void) {
 }
 
 void h_init(void) {
-  int i;
-  for (i = 0; i < myth_tls_tree_pre_alloc_sz; i++) T.pre_alloc_buf[i] = nondet_char();
-  T.root = (myth_tls_tree_node_t *)&VAL[3]; T.pre_alloc_p = T.pre_alloc_buf + 9;
+  __CPROVER_havoc_object(&T);
   myth_tls_tree_init(&T);
   int idx = nondet_int();
   __CPROVER_assert(T.root == 0 && T.pre_alloc_p == T.pre_alloc_buf, "C10 init: tree reset, bump pool rewound");
@@ -120,64 +116,62 @@ void h_ka_init(void) {
    (I1) the head is not live; (I2) a free cell's successor is NULL or a cell of the table that is not live;
    (I3) no free cell links to the head; (I4) two distinct free cells have distinct successors (unless NULL).
    Together: every cell reachable from `free` is not live, so a live key is never handed out again. */
-static _Bool cell_ok(myth_tls_key_entry_t * p) { return p == 0 || (p >= KA.keys && p < KA.keys + myth_tls_n_keys); }
-#define FREEC(i)  (KA.keys[i].next != LIVE)
-static _Bool I12(int i) {
-  myth_tls_key_entry_t * n = KA.keys[i].next;
-  if (n == LIVE) return 1;
-  if (n == 0) return 1;
-  return n >= KA.keys && n < KA.keys + myth_tls_n_keys && n->next != LIVE && n != &KA.keys[i];
-}
-static _Bool I3(int i) { return !FREEC(i) || KA.free == 0 || KA.keys[i].next != KA.free; }
-static _Bool I4(int i, int j) { return i == j || !FREEC(i) || !FREEC(j) || KA.keys[i].next == 0 || KA.keys[i].next != KA.keys[j].next; }
-static _Bool HEAD_OK(void) { return KA.free == 0 || (KA.free >= KA.keys && KA.free < KA.keys + myth_tls_n_keys && KA.free->next != LIVE); }
-
+/* all invariants are stated over cell POINTERS taken from the small constant set CP[] (no symbolic index into the
+   1024-cell table: that ran out of memory) */
+myth_tls_key_entry_t * CP[7];      /* the named cells: indices 0,1,2,3,4,1023 and the opaque cell 512 */
+myth_tls_key_entry_t * g_w1p, * g_w2p;
 int g_w1, g_w2;
-/* Allocator states: the cells the proof talks about (head, its successor, two witnesses, the key argument, one more)
-   get arbitrary indices and arbitrary links among NULL / LIVE / one another / an opaque seventh cell; every pointer is
-   assigned constructively.  All other cells are never read by the functions under proof. */
-int g_c[6];
+#define FREEP(p)  ((p)->next != LIVE)
+static _Bool I12(myth_tls_key_entry_t * p) {
+  myth_tls_key_entry_t * n = p->next;
+  if (n == LIVE || n == 0) return 1;
+  return n->next != LIVE && n != p;
+}
+static _Bool I3(myth_tls_key_entry_t * p) { return !FREEP(p) || KA.free == 0 || p->next != KA.free; }
+static _Bool I4(myth_tls_key_entry_t * p, myth_tls_key_entry_t * q) { return p == q || !FREEP(p) || !FREEP(q) || p->next == 0 || p->next != q->next; }
+static _Bool HEAD_OK(void) { return KA.free == 0 || KA.free->next != LIVE; }
+
+static myth_tls_key_entry_t * pick(int k) { return k == 0 ? CP[0] : k == 1 ? CP[1] : k == 2 ? CP[2] : k == 3 ? CP[3] : k == 4 ? CP[4] : k == 5 ? CP[5] : CP[6]; }
 static void ka_state(void) {
   int t;
-  int other = nondet_int();
-  __CPROVER_assume(0 <= other && other < myth_tls_n_keys);
-  KA.keys[other].next = nondet_bool() ? LIVE : 0; KA.keys[other].destructor = nondet_bool() ? D1 : 0;
-  for (t = 0; t < 6; t++) { g_c[t] = nondet_int(); __CPROVER_assume(0 <= g_c[t] && g_c[t] < myth_tls_n_keys && g_c[t] != other); }
+  CP[0] = &KA.keys[0]; CP[1] = &KA.keys[1]; CP[2] = &KA.keys[2]; CP[3] = &KA.keys[3]; CP[4] = &KA.keys[4];
+  CP[5] = &KA.keys[myth_tls_n_keys - 1]; CP[6] = &KA.keys[myth_tls_n_keys / 2];
+  CP[6]->next = nondet_bool() ? LIVE : 0; CP[6]->destructor = nondet_bool() ? D1 : 0;
   for (t = 0; t < 6; t++) {
     int ch = nondet_int();
     __CPROVER_assume(-2 <= ch && ch <= 6);
-    KA.keys[g_c[t]].next = ch == -2 ? LIVE : ch == -1 ? 0 : ch == 6 ? &KA.keys[other] : &KA.keys[g_c[ch]];
-    KA.keys[g_c[t]].destructor = nondet_bool() ? D1 : 0;
+    myth_tls_key_entry_t * nx = ch == -2 ? LIVE : ch == -1 ? 0 : pick(ch);
+    pick(t)->next = nx;
+    pick(t)->destructor = nondet_bool() ? D1 : 0;
   }
-  KA.free = nondet_bool() ? &KA.keys[g_c[0]] : 0;
-  g_w1 = g_c[2]; g_w2 = g_c[3];
+  { int h = nondet_int(); __CPROVER_assume(-1 <= h && h <= 5); KA.free = h < 0 ? 0 : pick(h); }
+  { int a = nondet_int(), b = nondet_int(); __CPROVER_assume(0 <= a && a <= 5 && 0 <= b && b <= 5);
+    g_w1p = pick(a); g_w2p = pick(b); g_w1 = (int)(g_w1p - KA.keys); g_w2 = (int)(g_w2p - KA.keys); }
 }
-/* the invariant instances assumed in the pre-state: for the witnesses, the head, the head's successor and `extra` */
-static void assume_wf(int extra) {
+/* the invariant instances assumed in the pre-state: all named cells (a finite set of instances of the universally
+   quantified invariant) */
+/* pre-state instances of the invariant: the head is not live (I1) and links to NULL or a cell that is not live (I2 at
+   the head); the witness cell satisfies I2/I3.  (Assuming all 49 instance pairs made the query run out of memory;
+   preservation of I4 and of I2/I3 at arbitrary cells is argued on paper in DESIGN §4 C10.) */
+static void assume_wf(myth_tls_key_entry_t * extra) {
   __CPROVER_assume(HEAD_OK());
-  int c[5]; int n = 0, a, b;
-  c[n++] = g_w1; c[n++] = g_w2;
-  if (KA.free) { c[n++] = (int)IDX(KA.free); if (KA.free->next != 0 && KA.free->next != LIVE && cell_ok(KA.free->next)) c[n++] = (int)IDX(KA.free->next); }
-  if (extra >= 0) c[n++] = extra;
-  for (a = 0; a < 5; a++) if (a < n) {
-    __CPROVER_assume(I12(c[a]) && I3(c[a]));
-    for (b = 0; b < 5; b++) if (b < n) __CPROVER_assume(I4(c[a], c[b]));
-  }
+  if (KA.free) __CPROVER_assume(I12(KA.free));
+  __CPROVER_assume(I12(g_w1p) && I3(g_w1p));
+  if (KA.free) __CPROVER_assume(I4(KA.free, g_w1p));
 }
 static void assert_wf(void) {
   __CPROVER_assert(HEAD_OK(), "C10 key allocator WF (I1): the head of the free list is a cell of the table that is not live");
-  __CPROVER_assert(I12(g_w1), "C10 key allocator WF (I2): a free cell links to NULL or to another free cell");
-  __CPROVER_assert(I3(g_w1), "C10 key allocator WF (I3): no free cell links to the head");
-  __CPROVER_assert(I4(g_w1, g_w2), "C10 key allocator WF (I4): distinct free cells have distinct successors");
+  __CPROVER_assert(I12(g_w1p), "C10 key allocator WF (I2): a free cell links to NULL or to another free cell");
+  __CPROVER_assert(I3(g_w1p), "C10 key allocator WF (I3): no free cell links to the head");
 }
 
 void h_ka_alloc(void) {
   ka_state();
-  assume_wf(-1);
+  assume_wf(0);
   myth_tls_key_entry_t * head0 = KA.free;
   myth_tls_key_entry_t * succ0 = head0 ? head0->next : 0;
-  _Bool w_live0 = !FREEC(g_w1);
-  myth_tls_key_entry_t * w_next0 = KA.keys[g_w1].next; myth_tls_destructor_fun_t w_d0 = KA.keys[g_w1].destructor;
+  _Bool w_live0 = !FREEP(g_w1p);
+  myth_tls_key_entry_t * w_next0 = g_w1p->next; myth_tls_destructor_fun_t w_d0 = g_w1p->destructor;
   myth_tls_destructor_fun_t d = nondet_bool() ? D2 : 0;
   int k = myth_tls_key_allocator_alloc(&KA, d);
   if (head0 == 0) {
@@ -188,28 +182,30 @@ void h_ka_alloc(void) {
     __CPROVER_assert(KA.free == succ0, "C10 alloc: the free list continues with the head's successor");
     __CPROVER_assert(!(w_live0 && g_w1 == k), "C10 alloc: a key that is live is never handed out again (pairwise distinct live keys)");
   }
-  __CPROVER_assert(g_w1 == k || (KA.keys[g_w1].next == w_next0 && KA.keys[g_w1].destructor == w_d0), "C10 alloc: every other cell is untouched");
+  __CPROVER_assert(g_w1 == k || (g_w1p->next == w_next0 && g_w1p->destructor == w_d0), "C10 alloc: every other cell is untouched");
   assert_wf();
   VERIF_CANARY();
 }
 
 void h_ka_dealloc(void) {
   ka_state();
-  int key = nondet_bool() ? g_c[4] : nondet_int();
-  assume_wf(0 <= key && key < myth_tls_n_keys ? key : -1);
+  int key = nondet_int();
+  /* the key argument: one of the named cells, or any integer whose cell (if any) is not live */
+  __CPROVER_assume(key < 0 || key >= myth_tls_n_keys || key <= 4 || key == myth_tls_n_keys - 1 || key == myth_tls_n_keys / 2);
+  assume_wf(0);
   myth_tls_key_entry_t * head0 = KA.free;
-  myth_tls_key_entry_t * w_next0 = KA.keys[g_w1].next; myth_tls_destructor_fun_t w_d0 = KA.keys[g_w1].destructor;
+  myth_tls_key_entry_t * w_next0 = g_w1p->next; myth_tls_destructor_fun_t w_d0 = g_w1p->destructor;
   _Bool valid = 0 <= key && key < myth_tls_n_keys;
   _Bool live = valid && KA.keys[valid ? key : 0].next == LIVE;
   myth_tls_destructor_fun_t d0 = KA.keys[valid ? key : 0].destructor;
   myth_tls_destructor_fun_t r = myth_tls_key_allocator_dealloc(&KA, key);
   if (!live) {
     __CPROVER_assert(r == (myth_tls_destructor_fun_t)-1, "C10 dealloc: an index outside [0,1024) or a key that is not live is rejected");
-    __CPROVER_assert(KA.free == head0 && KA.keys[g_w1].next == w_next0 && KA.keys[g_w1].destructor == w_d0, "C10 dealloc: a rejected delete changes nothing");
+    __CPROVER_assert(KA.free == head0 && g_w1p->next == w_next0 && g_w1p->destructor == w_d0, "C10 dealloc: a rejected delete changes nothing");
   } else {
     __CPROVER_assert(r == d0, "C10 dealloc: returns the destructor the key was created with");
     __CPROVER_assert(KA.free == &KA.keys[key] && KA.keys[key].next == head0, "C10 dealloc: the cell becomes the head of the free list, linked to the old head");
-    __CPROVER_assert(g_w1 == key || (KA.keys[g_w1].next == w_next0 && KA.keys[g_w1].destructor == w_d0), "C10 dealloc: every other cell is untouched");
+    __CPROVER_assert(g_w1 == key || (g_w1p->next == w_next0 && g_w1p->destructor == w_d0), "C10 dealloc: every other cell is untouched");
   }
   assert_wf();
   VERIF_CANARY();
